@@ -78,13 +78,16 @@ func ContextStopped() context.Context {
 func New() *OrderedDaemon {
 	stoppedCtx, stoppedCtxCancel := context.WithCancel(context.Background())
 
-	return &OrderedDaemon{
+	d := &OrderedDaemon{
 		stoppedCtx:             stoppedCtx,
 		stoppedCtxCancel:       stoppedCtxCancel,
 		workers:                make(map[string]*worker),
 		shutdownOrderWorker:    make([]string, 0),
 		wgPerSameShutdownOrder: make(map[int]*sync.WaitGroup),
 	}
+	d.noWorkerRunning = sync.NewCond(&d.lock)
+
+	return d
 }
 
 // OrderedDaemon is an orchestrator for background workers.
@@ -100,6 +103,11 @@ type OrderedDaemon struct {
 	wgPerSameShutdownOrder map[int]*sync.WaitGroup
 	lock                   syncutils.RWMutex
 	logger                 log.Logger
+
+	// runningWorkers counts the started workers that are not cleaned up yet (guarded by lock),
+	// noWorkerRunning is signaled whenever it drops to zero.
+	runningWorkers  int
+	noWorkerRunning *sync.Cond
 }
 
 type worker struct {
@@ -151,6 +159,7 @@ func (d *OrderedDaemon) runBackgroundWorker(name string, backgroundWorker Worker
 	worker := d.workers[name]
 	shutdownOrderWaitGroup := d.wgPerSameShutdownOrder[worker.shutdownOrder]
 	shutdownOrderWaitGroup.Add(1)
+	d.runningWorkers++ // the callers hold the lock
 
 	worker.running.Store(true)
 	go func() {
@@ -275,41 +284,15 @@ func (d *OrderedDaemon) Start() {
 func (d *OrderedDaemon) Run() {
 	d.Start()
 
-	for {
-		// wait until all wait groups for all shutdown orders are finished
-		for _, wg := range d.waitGroupsForAllShutdownOrders() {
-			if wg == nil {
-				continue
-			}
-			wg.Wait()
-		}
+	// wait until no worker is running anymore. We must not wait on the wait groups of the
+	// shutdown orders here: they are reused when a worker is added under an order whose
+	// workers have all finished, which panics if that happens while Wait is returning.
+	d.lock.Lock()
+	defer d.lock.Unlock()
 
-		// workers that were added while we were waiting (under a new shutdown order, or under
-		// an order whose wait group we had already passed) are not covered by the loop above,
-		// so only return if nothing is running anymore.
-		if len(d.GetRunningBackgroundWorkers()) == 0 {
-			return
-		}
+	for d.runningWorkers > 0 {
+		d.noWorkerRunning.Wait()
 	}
-}
-
-// returns all waitgroups of all existing shutdown orders or nil if none.
-func (d *OrderedDaemon) waitGroupsForAllShutdownOrders() []*sync.WaitGroup {
-	d.lock.RLock()
-	defer d.lock.RUnlock()
-
-	if len(d.wgPerSameShutdownOrder) == 0 {
-		return nil
-	}
-
-	waitGroups := make([]*sync.WaitGroup, len(d.wgPerSameShutdownOrder))
-	i := 0
-	for _, wg := range d.wgPerSameShutdownOrder {
-		waitGroups[i] = wg
-		i++
-	}
-
-	return waitGroups
 }
 
 func (d *OrderedDaemon) shutdown() {
@@ -364,6 +347,11 @@ func (d *OrderedDaemon) stopWorkers() {
 func (d *OrderedDaemon) cleanupWorker(name string) {
 	d.lock.Lock()
 	defer d.lock.Unlock()
+
+	d.runningWorkers--
+	if d.runningWorkers == 0 {
+		d.noWorkerRunning.Broadcast()
+	}
 
 	if d.IsStopped() {
 		return
